@@ -18,11 +18,10 @@ C03 — convergence of 'subpixels' masks, continued: ANY boundary convention and
                                     `C02.rect_mask_spec`; the area is the Lebesgue measure of (pixel ∩
                                     open rectangle).
 
-NOT done: convex polygons through `C01.pnpoly_convex_final`.  There the membership convention is
-unknown on the fan diagonals, i.e. at finitely many INTERIOR points of a column, which the sandwich
-`(α, β) ⊆ members ⊆ [α, β]` does not allow (it only frees the two end points); a version with `m`
-exceptional points per column (`+ m/n`) and the construction of `lo`, `hi` as min / max over the edge
-list would be needed.
+Convex polygons through `C01.pnpoly_convex` (membership unknown on the fan diagonals, i.e. at
+finitely many INTERIOR points of a column, which the sandwich `(α, β) ⊆ members ⊆ [α, β]` does not
+allow): `Props/C03ConvergePoly.lean` (`m` exceptional points per column, `+ m/n`; `lo`, `hi` as max /
+min over the edge list).
 -/
 import RegionsVerif.Props.C03Converge
 
